@@ -17,9 +17,11 @@ Definition set_fobj (n : node) (id : nid) (gen : N) (f : fstate) : node :=
   if f_gen (get_follower n id) =? gen then set_follower n id f
   else n <| n_orphans ::= map (fun o => if f_gen o =? gen then f else o) |>.
 
+(* fix: D22 - the node counts itself only if it is a voting member of its configuration *)
+Definition self_count (n : node) : N := if is_voter (conf_of n) (n_id n) then 1 else 0.
 Definition new_round (n : node) (stamp : N) : node * N :=
   let id := n_next_round n in
-  (n <| n_rounds ::= fun l => l ++ [{| r_id := id; r_count := 1; r_stamp := stamp; r_term := n_term n |}] |> <| n_next_round := id + 1 |>, id).
+  (n <| n_rounds ::= fun l => l ++ [{| r_id := id; r_count := self_count n; r_stamp := stamp; r_term := n_term n |}] |> <| n_next_round := id + 1 |>, id).
 Definition round_count (n : node) (id : N) : N :=
   match find (fun r => r_id r =? id) (n_rounds n) with Some r => r_count r | None => 0 end.
 Definition round_term (n : node) (id : N) : N :=
@@ -191,7 +193,7 @@ Definition committed_this_term (n : node) : bool :=
   end.
 
 Definition count_matches (n : node) (index : N) : N :=
-  1 + N.of_nat (length (filter (fun p => negb (fst p =? n_id n) && is_voter (conf_of n) (fst p)
+  self_count n + N.of_nat (length (filter (fun p => negb (fst p =? n_id n) && is_voter (conf_of n) (fst p)
                                           && (index <=? f_match (snd p))) (n_followers n))).
 
 Fixpoint commit_scan (n : node) (es : list entry) (commit : N) : N :=
@@ -326,7 +328,9 @@ Definition pending_conf_change (n : node) : bool :=
   match n_cconf n with
   | None => true
   | Some cc => negb (c_index cc =? c_index (conf_of n))
-  end.
+  end
+  (* fix: D7 - a change submitted to this node (RemoveServer does not install its configuration) is pending until applied *)
+  || match n_cfg_fid n with Some _ => true | None => false end.
 
 Definition append_configuration (n : node) (c : config) : node * config :=
   let c' := {| c_index := next_index (n_log n); c_members := c_members c |} in
